@@ -1,9 +1,9 @@
 SPECIFICATION Spec
 CONSTANTS
-  Nodes = {1, 2, 3}
-  MaxEvents = 14
+  Nodes = {1, 2}
+  MaxEvents = 12
   Stricts = {TRUE, FALSE}
-  Excl = {0, 1, 2, 3}
-  Fams = {"4", "6"}
-  Doms = {"data", "dns", "tcp"}
+  Excl = {0, 1, 2}
+  Fams = {"4"}
+  Doms = {"data", "tcp"}
 INVARIANTS NoneOnlyWhenNone ExcludedNeverOffered OfferWhenPossible Emit
